@@ -201,10 +201,21 @@ def main(pid, level, body):
         if a.replay is None and not os.environ.get("VERIF_NO_PURITY"):
             # cross-cutting growth (specs/Purity.tla): the public functions behind this property leave their arguments alone and give
             # the same answer for the same call, whatever was called in between
-            from . import purity, purity_calls
-            calls = purity_calls.calls_for(pid, seed)
-            if calls:
-                purity.purity_part(run, pid, calls)
+            try:
+                from . import purity, purity_calls
+                try:
+                    calls = purity_calls.calls_for(pid, seed)
+                except Exception as ex:
+                    # the builders only make valid calls that succeed on the unchanged tree
+                    run.violation("purity: setting up the representative calls raised %r" % ex, {}, {"part": "purity", "raised": True})
+                    calls = []
+                if calls:
+                    purity.purity_part(run, pid, calls)
+            except Exception:
+                if not run.violations:
+                    raise
+                traceback.print_exc()
+                print("%s: the purity part could not be completed; the violations found before it stand" % pid)
     except SystemExit:
         raise
     except BaseException:
